@@ -717,3 +717,266 @@ fn c08_agree() {
     forget(idx);
 }
 
+
+// ---------------------------------------------------------------------------
+// C10: adjust_mappings composes interval by interval (small token sets, 30-bit fields).
+#[derive(Clone, Copy, PartialEq)]
+struct Iv {
+    start: (u32, u32),
+    end: (u32, u32),
+}
+
+/// stretch of the element with key `k` among `keys`: from k to the next strictly greater
+/// key, or the end of k's line, whichever comes first
+fn stretch(keys: &[(u32, u32)], k: (u32, u32)) -> Iv {
+    let mut end = (k.0, u32::MAX);
+    let mut i = 0;
+    while i < keys.len() {
+        if keys[i] > k && keys[i] < end {
+            end = keys[i];
+        }
+        i += 1;
+    }
+    Iv { start: k, end }
+}
+
+const C10_MAX: usize = 4;
+
+/// expected tokens for one choice of live duplicates (`live_o[i]`, `live_a[j]`)
+fn c10_expected(o: &[RawToken], a: &[RawToken], live_o: &[bool], live_a: &[bool], out: &mut [RawToken; C10_MAX]) -> usize {
+    let mut ok: [(u32, u32); 2] = [(0, 0); 2];
+    let mut ak: [(u32, u32); 2] = [(0, 0); 2];
+    let mut i = 0;
+    while i < o.len() {
+        ok[i] = (o[i].dst_line, o[i].dst_col);
+        i += 1;
+    }
+    let mut j = 0;
+    while j < a.len() {
+        ak[j] = (a[j].src_line, a[j].src_col);
+        j += 1;
+    }
+    let mut n = 0;
+    let mut j = 0;
+    while j < a.len() {
+        let mut i = 0;
+        while i < o.len() {
+            if live_o[i] && live_a[j] {
+                let so = stretch(&ok[..o.len()], ok[i]);
+                let sa = stretch(&ak[..a.len()], ak[j]);
+                let s = if so.start > sa.start { so.start } else { sa.start };
+                let e = if so.end < sa.end { so.end } else { sa.end };
+                if s < e {
+                    let dl = a[j].dst_line as i64 - a[j].src_line as i64;
+                    let dc = a[j].dst_col as i64 - a[j].src_col as i64;
+                    let mut t = o[i];
+                    t.dst_line = (s.0 as i64 + dl) as u32;
+                    t.dst_col = (s.1 as i64 + dc) as u32;
+                    out[n] = t;
+                    n += 1;
+                }
+            }
+            i += 1;
+        }
+        j += 1;
+    }
+    n
+}
+
+/// multiset inclusion: first na entries of a  <=  first nb entries of b
+fn multiset_le<const NM: usize>(a: &[RawToken; C10_MAX], na: usize, b: &[RawToken; C10_MAX], nb: usize) -> bool {
+    let mut i = 0;
+    while i < NM {
+        if i < na {
+            let mut ca = 0;
+            let mut cb = 0;
+            let mut j = 0;
+            while j < NM {
+                if j < na && a[j] == a[i] {
+                    ca += 1;
+                }
+                if j < nb && b[j] == a[i] {
+                    cb += 1;
+                }
+                j += 1;
+            }
+            if ca > cb {
+                return false;
+            }
+        }
+        i += 1;
+    }
+    true
+}
+
+/// multiset equality of the first n (<= NM) entries
+fn multiset_eq<const NM: usize>(got: &[RawToken; C10_MAX], want: &[RawToken; C10_MAX], n: usize) -> bool {
+    let mut i = 0;
+    while i < NM {
+        if i < n {
+            let mut cg = 0;
+            let mut cw = 0;
+            let mut j = 0;
+            while j < NM {
+                if j < n {
+                    if got[j] == want[i] {
+                        cg += 1;
+                    }
+                    if want[j] == want[i] {
+                        cw += 1;
+                    }
+                }
+                j += 1;
+            }
+            if cg != cw {
+                return false;
+            }
+        }
+        i += 1;
+    }
+    true
+}
+
+fn small_token(lines: u32, cols: u32) -> RawToken {
+    let t = any_token();
+    kani::assume(t.dst_line < lines && t.src_line < lines && t.dst_col < cols && t.src_col < cols);
+    t
+}
+
+fn c10_body<const N: usize, const M: usize, const NM: usize>(lines: u32, cols: u32) {
+    let mut o = [small_token(lines, cols); N];
+    let mut a = [small_token(lines, cols); M];
+    let mut i = 1;
+    while i < N {
+        o[i] = small_token(lines, cols);
+        i += 1;
+    }
+    let mut j = 1;
+    while j < M {
+        a[j] = small_token(lines, cols);
+        j += 1;
+    }
+    let mut sm = mk_map(vec_of(&o));
+    sm.sources.push("s".into());
+    sm.names.push("n".into());
+    let adj = mk_map(vec_of(&a));
+    sm.adjust_mappings(&adj);
+    let got_n = sm.tokens.len();
+    assert!(got_n <= NM, "C10/at-most-one-token-per-pair");
+    let mut got = [o[0]; C10_MAX];
+    let mut i = 0;
+    while i < NM {
+        if i < got_n {
+            got[i] = sm.tokens[i];
+        }
+        i += 1;
+    }
+    // ordered by generated position
+    let mut i = 1;
+    while i < NM {
+        if i < got_n {
+            assert!((got[i - 1].dst_line, got[i - 1].dst_col) <= (got[i].dst_line, got[i].dst_col), "C10/result-ordered");
+        }
+        i += 1;
+    }
+    assert!(sm.sources.len() == 1 && sm.names.len() == 1, "C10/sources-and-names-untouched");
+    // which of two tokens sharing a start carries the stretch is unspecified
+    let dup_o = N == 2 && (o[0].dst_line, o[0].dst_col) == (o[1].dst_line, o[1].dst_col);
+    let dup_a = M == 2 && (a[0].src_line, a[0].src_col) == (a[1].src_line, a[1].src_col);
+    // upper bound: every token treated as carrying its key's stretch
+    let all = [true, true];
+    let mut upper = [o[0]; C10_MAX];
+    let un = c10_expected(&o, &a, &all, &all, &mut upper);
+    let mut matched = false;
+    let mut bounded = false;
+    let mut co = 0;
+    while co < 2 {
+        let mut ca = 0;
+        while ca < 2 {
+            let live_o = [!dup_o || co == 0, !dup_o || co == 1];
+            let live_a = [!dup_a || ca == 0, !dup_a || ca == 1];
+            let mut want = [o[0]; C10_MAX];
+            let wn = c10_expected(&o, &a, &live_o, &live_a, &mut want);
+            if wn == got_n && multiset_eq::<NM>(&got, &want, wn) {
+                matched = true;
+            }
+            if multiset_le::<NM>(&want, wn, &got, got_n) && multiset_le::<NM>(&got, got_n, &upper, un) {
+                bounded = true;
+            }
+            ca += 1;
+        }
+        co += 1;
+    }
+    // the statement as given: exactly one token per NON-EMPTY overlap
+    assert!(matched, "C10/one-token-per-non-empty-overlap");
+    // the same, restricted to inputs where no two tokens of a side share a start (the
+    // recorded finding F12 needs such a pair, so this label must hold everywhere)
+    assert!(matched || dup_o || dup_a, "C10/exact-composition-when-starts-are-distinct");
+    // weaker envelope (holds also on trees with known finding F12): every required token
+    // is present, and every token present is an overlap start moved by the adjustment
+    // token's displacement carrying the original token's data (tokens sharing a start
+    // may each contribute)
+    assert!(bounded, "C10/tokens-are-overlap-starts-moved-by-displacement");
+    kani::cover!(got_n == N * M && N * M > 1, "every pair overlaps");
+    kani::cover!(got_n == 0, "no overlap");
+    if N == 2 {
+        kani::cover!(dup_o && got_n >= 1, "duplicated original position");
+    }
+    if M == 2 {
+        kani::cover!(dup_a && got_n >= 1, "duplicated adjustment position");
+        kani::cover!((a[0].src_line, a[0].src_col) > (a[1].src_line, a[1].src_col), "adjustment tokens out of order");
+    }
+    kani::cover!(got_n >= 1 && got[0].dst_line != o[0].dst_line, "multi-line displacement");
+    forget(sm);
+    forget(adj);
+}
+
+macro_rules! c10 {
+    ($name:ident, $n:literal, $m:literal, $nm:literal, $lines:expr, $cols:expr, $u:literal) => {
+        #[kani::proof]
+        #[kani::unwind($u)]
+        #[kani::stub(std::vec::Vec::new, crate::vstubs::vec_new_small)]
+        #[kani::stub(std::vec::Vec::push, crate::vstubs::vec_push)]
+        #[kani::stub(core::slice::sort::unstable::sort, crate::vstubs::sort_unstable)]
+        fn $name() {
+            c10_body::<$n, $m, $nm>($lines, $cols)
+        }
+    };
+}
+c10!(c10_1x1_full30, 1, 1, 1, 1 << 30, 1 << 30, 3);
+c10!(c10_2x1_g2x8, 2, 1, 2, 2, 8, 4);
+c10!(c10_1x2_g2x8, 1, 2, 2, 2, 8, 4);
+c10!(c10_2x2_g2x8, 2, 2, 4, 2, 8, 6);
+c10!(c10_2x1_full30, 2, 1, 2, 1 << 30, 1 << 30, 4);
+c10!(c10_1x2_full30, 1, 2, 2, 1 << 30, 1 << 30, 4);
+
+// empty sides: nothing to compose
+#[kani::proof]
+#[kani::unwind(4)]
+#[kani::stub(std::vec::Vec::new, crate::vstubs::vec_new_small)]
+#[kani::stub(std::vec::Vec::push, crate::vstubs::vec_push)]
+#[kani::stub(core::slice::sort::unstable::sort, crate::vstubs::sort_unstable)]
+fn c10_2x0() {
+    let t = any_tokens::<2>();
+    let mut sm = mk_map(vec_of(&t));
+    let adj = mk_map(Vec::with_capacity(1));
+    sm.adjust_mappings(&adj);
+    assert!(sm.tokens.len() == 0, "C10/empty-side-gives-empty-result");
+    forget(sm);
+    forget(adj);
+}
+
+#[kani::proof]
+#[kani::unwind(4)]
+#[kani::stub(std::vec::Vec::new, crate::vstubs::vec_new_small)]
+#[kani::stub(std::vec::Vec::push, crate::vstubs::vec_push)]
+#[kani::stub(core::slice::sort::unstable::sort, crate::vstubs::sort_unstable)]
+fn c10_0x2() {
+    let t = any_tokens::<2>();
+    let mut sm = mk_map(Vec::with_capacity(1));
+    let adj = mk_map(vec_of(&t));
+    sm.adjust_mappings(&adj);
+    assert!(sm.tokens.len() == 0, "C10/empty-side-gives-empty-result");
+    forget(sm);
+    forget(adj);
+}
